@@ -296,48 +296,75 @@ def main():
         model_rows = None
     distinct = set()
     dist = {}
-    for i, line in enumerate(cases):
-        op, kv = vlib.parse_case(line)
-        dist[op] = dist.get(op, 0) + 1
-        if P["nontrivial"](op, kv):
-            distinct.add(line)
-        for (bname, exe, env) in builds_for_loop:
-            res, tr = outs[bname][i]
-            t, flags = vlib.split_trace(tr)
-            stats["evaluations"] += 1
-            cres = vlib.canon_res(res)
-            # oracle on the implementation's own output
-            try:
-                m = P["oracle"](op, kv, cres, t, flags)
-            except Exception as ex:
-                m = f"oracle error: {ex}"
-            stats["oracle_checked"] += 1
-            if res.startswith("CRASH") and m is None:
-                m = f"implementation crashed: {res}"
-            if m:
-                violations.append((m, line, dict(build=bname, impl=res, trace=tr,
-                                                 model=(model_rows[i] if model_rows else None)), exe, env))
-            # correspondence with the model
-            if model_rows is not None:
-                mres, mtr = model_rows[i]
-                if mres == "#":
-                    continue
-                if P.get("canon"):
-                    if mres == "n/a" or res in ("BadCase", "UnknownOp"):
+    def judge(cases, outs, blds, model_rows, count=True):
+        for i, line in enumerate(cases):
+            op, kv = vlib.parse_case(line)
+            if count:
+                dist[op] = dist.get(op, 0) + 1
+                if P["nontrivial"](op, kv):
+                    distinct.add(line)
+            for (bname, exe, env) in blds:
+                res, tr = outs[bname][i]
+                t, flags = vlib.split_trace(tr)
+                stats["evaluations"] += 1
+                cres = vlib.canon_res(res)
+                # oracle on the implementation's own output
+                try:
+                    m = P["oracle"](op, kv, cres, t, flags)
+                except Exception as ex:
+                    m = f"oracle error: {ex}"
+                stats["oracle_checked"] += 1
+                if res.startswith("CRASH") and m is None:
+                    m = f"implementation crashed: {res}"
+                if m:
+                    violations.append((m, line, dict(build=bname, impl=res, trace=tr,
+                                                     model=(model_rows[i] if model_rows else None)), exe, env))
+                # correspondence with the model
+                if model_rows is not None:
+                    mres, mtr = model_rows[i]
+                    if mres == "#":
                         continue
-                    cres = P["canon"](op, cres); mres = P["canon"](op, mres)
-                if "release" in bname and vlib.debug_only_panic(mres):
-                    # debug_assert!/overflow checks are compiled out in release builds: what the
-                    # implementation does after such a point is outside the model
-                    stats["skipped_debug_only"] = stats.get("skipped_debug_only", 0) + 1
+                    if P.get("canon"):
+                        if mres == "n/a" or res in ("BadCase", "UnknownOp"):
+                            continue
+                        cres = P["canon"](op, cres); mres = P["canon"](op, mres)
+                    if "release" in bname and vlib.debug_only_panic(mres):
+                        # debug_assert!/overflow checks are compiled out in release builds: what the
+                        # implementation does after such a point is outside the model
+                        stats["skipped_debug_only"] = stats.get("skipped_debug_only", 0) + 1
+                        continue
+                    stats["compared_results"] += 1
+                    if vlib.canon_res(mres) != cres:
+                        mismatches.append((f"result mismatch [{bname}]: impl={res} model={mres}", line))
+                    elif P.get("compare_trace", True) and t != "?" :
+                        stats["compared_traces"] += 1
+                        if mtr != t:
+                            mismatches.append((f"trace mismatch [{bname}]: impl={t} model={mtr}", line))
+    judge(cases, outs, builds_for_loop, model_rows)
+
+    # ---- 4a. emulated NEON / simd128 builds (thorough tier): the aarch64 / wasm32 code of /repo's working tree,
+    # compiled for this host with the vendor intrinsics replaced by harness/emu/*.rs, against the model's Neon / Simd128 backends
+    emu_info = {}
+    if (tier == "thorough" or P.get("emu_quick") or os.environ.get("VERIF_EMU")) and P.get("emu") and okm and builds_for_loop:
+        import shutil
+        for arch in P["emu"]:
+            okb, exe, scratch = vlib.emu_build(arch)
+            try:
+                if not okb:
+                    broken.append(("correspondence", f"emulated {arch} build", exe[-800:]))
                     continue
-                stats["compared_results"] += 1
-                if vlib.canon_res(mres) != cres:
-                    mismatches.append((f"result mismatch [{bname}]: impl={res} model={mres}", line))
-                elif P.get("compare_trace", True) and t != "?" :
-                    stats["compared_traces"] += 1
-                    if mtr != t:
-                        mismatches.append((f"trace mismatch [{bname}]: impl={t} model={mtr}", line))
+                ecases = vlib.emu_cases(cases, arch)[: P.get("emu_max", 40000)]
+                eouts = run_cases(P, ecases, [(f"emu-{arch}", exe, None)], want_model=True)
+                erows = eouts.get("model")
+                if erows is None or len(erows) != len(ecases):
+                    broken.append(("correspondence", f"model driver (emulated {arch})", f"{len(erows or [])} rows for {len(ecases)} cases"))
+                    continue
+                before = stats["compared_traces"]
+                judge(ecases, eouts, [(f"emu-{arch}", exe, None)], erows, count=False)
+                emu_info[f"emulated_{arch}_cases"] = len(ecases)
+                emu_info[f"emulated_{arch}_traces_compared"] = stats["compared_traces"] - before
+            finally:
+                shutil.rmtree(scratch, ignore_errors=True)
     if mismatches:
         broken.append(("correspondence", f"{len(mismatches)} model/implementation differences", mismatches[0][0] + " on: " + mismatches[0][1][:300]))
 
@@ -409,7 +436,7 @@ def main():
                     seen_known.add(kmatch)
                     lines_out.append(f"KNOWN-FINDING: property={pid} {kmatch}")
                 continue
-            sline, smsg = shrink(P, line, exe, env, m)
+            sline, smsg = shrink(P, line, exe, env, m) if os.path.exists(exe) else (line, m)   # emulated builds are scratch
             path = vlib.write_replay(pid, "violation", dict(property=pid, kind="failing-input", message=smsg,
                                      case=sline, original_case=line, details=det,
                                      rerun=f"bin/check {pid} --replay replays/{pid}-violation.json"))
@@ -450,6 +477,7 @@ def main():
         exhaustive=False,
     )
     coverage.update(cert_stats)
+    coverage.update(emu_info)
     if conc_info:
         coverage.update(conc_info)
     coverage.update(P.get("extra_coverage", lambda: {})())
